@@ -273,7 +273,16 @@ def rebuild_rules(P, R):
                             if ms:
                                 src = ms[0]
                             elif loc:
+                                # a local stands for the string member only if its own initialiser is taken from that member
+                                # (iterator / reference / copy of <X>String); a local holding anything else (e.g. the text of
+                                # the current request only) is a different source
                                 src = ("local", loc[0])
+                                for y in T.walk(f["body"]):
+                                    if y[0] == "Decl":
+                                        for dd in y[2]:
+                                            if dd[0] == loc[0] and T.is_node(dd[2]):
+                                                mm = [z[2] for z in T.walk(dd[2]) if z[0] == "Member" and z[2] in pairs.values()]
+                                                src = mm[0] if mm else ("local-other", loc[0], T.text(dd[2]))
             if src is None:
                 continue
             for s in x[2]:
@@ -289,9 +298,10 @@ def rebuild_rules(P, R):
         if not got:
             R.violation("C09.rebuild", inst, "%s is never rebuilt from %s by a getline loop" % (inst, string.split("::")[-1]), file="IPhreeqc.cpp", line=0, function="IPhreeqc::do_run")
             continue
-        bad = [g for g in got if g[1] != string and not (isinstance(g[1], tuple))]
+        bad = [g for g in got if g[1] != string and not (isinstance(g[1], tuple) and g[1][0] == "local")]
         if bad:
-            R.violation("C09.rebuild", inst, "%s is rebuilt from %s instead of %s" % (inst, bad[0][1], string), file="IPhreeqc.cpp", line=bad[0][2], function=bad[0][0])
+            what = bad[0][1] if not isinstance(bad[0][1], tuple) else "local `%s` (= %s)" % (bad[0][1][1], bad[0][1][2])
+            R.violation("C09.rebuild", inst, "%s is rebuilt from %s instead of %s: the line view no longer holds the lines of the string" % (inst, what, string), file="IPhreeqc.cpp", line=bad[0][2], function=bad[0][0])
         else:
             R.ok("C09.rebuild", inst, "rebuilt from %s in %s" % (string.split("::")[-1], got[0][0]))
 
